@@ -13,7 +13,7 @@ import random
 
 LEVEL = "exploration"
 RULE = ("ilp on n <= 6 items (values <= 200), 1-4 bins, five objectives; option classes: copies (one number 0/1/2, a per-item list, or a per-item dict keyed by item index written in shuffled insertion order), constraints smallest==c / largest<=c / smallest>=c (one, or two in the same list) with c below, at and "
-        "above feasibility (infeasible ones must raise ValueError), weights (uniform and non-uniform from {1/4,1/2,1,2,3,5,7.5,10,20,25,50,100} or arbitrary integers / dyadic fractions), plain; non-trivial = constraint binding (constrained optimum differs from the "
+        "above feasibility (infeasible ones must raise ValueError), equal power-of-two weights combined with constraints (which then speak about sum/weight; includes the shares 1/numbins), weights (uniform and non-uniform from {1/4,1/2,1,2,3,5,7.5,10,20,25,50,100} or arbitrary integers / dyadic fractions), plain; non-trivial = constraint binding (constrained optimum differs from the "
         "unconstrained one) or infeasible, or copies not all 1, or weights not all equal; distinct on the full call")
 ASSUMPTIONS = ["values <= 200 (the property's solver envelope); a mismatch that disappears with CBC preprocessing off is inconclusive(solver)",
                "equal weights: 'never change the result' is read as same optimal value, same copies, ascending sums (the partition may differ among equally optimal ones)",
@@ -92,7 +92,11 @@ def evaluate(case, r, names, vmap):
     wts = case.get("weights")
     uniform = wts is None or len(set(wts)) == 1
     vectors = O.sum_vectors(expanded, k)
-    feas = [s for s in vectors if con is None or constraint_ok(con, s)]
+    # the caller's constraints are written on the sums the objective sees, i.e. on the WEIGHTED sums; with equal weights w that is sum/w (w is a power of two whenever a
+    # constraint is combined with weights, so the division is exact)
+    scale = wts[0] if (wts is not None and uniform and con is not None) else 1
+    weighted = (lambda s: [x / scale for x in s]) if scale != 1 else (lambda s: s)
+    feas = [s for s in vectors if con is None or constraint_ok(con, weighted(s))]
     w = {"numbins": k, "copies": cp, "constraint": con, "weights": wts, "objective": [name, kp]}
     if not feas:
         if r.ok:
@@ -122,7 +126,7 @@ def evaluate(case, r, names, vmap):
     if uniform:
         if any(s[i] > s[i + 1] for i in range(k - 1)):
             return "sums_not_ascending", w
-        if con is not None and not constraint_ok(con, sorted(s)):
+        if con is not None and not constraint_ok(con, weighted(sorted(s))):
             return "constraint_violated", w
         got = O.objval(name, s, kp)
         opt = min(O.objval(name, v, kp) for v in feas)
@@ -198,7 +202,7 @@ def draw(rng):
     name = rng.choice(C.OBJ5)
     kp = rng.randint(1, k + 1) if name in ("ksmall", "klarge") else None
     case = {"kind": "ilp", "alg": "ilp", "k": k, "values": vals, "objective": [name, kp], "pres": rng.choice(["list", "dict_str", "names_int"]), "pres_seed": rng.randrange(1 << 30)}
-    cls = rng.choice(["plain", "copies", "copies", "constraint", "constraint", "constraint", "weights_uniform", "weights", "copies+constraint"])
+    cls = rng.choice(["plain", "copies", "copies", "constraint", "constraint", "constraint", "weights_uniform", "weights", "copies+constraint", "weights_uniform+constraint"])
     case["cls"] = cls
     if rng.random() < 0.3:
         case["time_limit"] = rng.choice(["inf", 30, 60.0])
@@ -234,6 +238,13 @@ def draw(rng):
             case["constraint"] = [[kind, c], [kind2, c2]] if rng.random() < 0.5 else [[kind2, c2], [kind, c]]
         feas = [v for v in vectors if constraint_ok(case["constraint"], v)]
         case["binding"] = (not feas) or min(O.objval(name, v, kp) for v in feas) != unc
+    if cls == "weights_uniform+constraint":
+        # equal weights together with a constraint: the constraint then speaks about sum/w. Power-of-two weights only (exact), including the "shares" 1/numbins that sum to 1
+        wgt = rng.choice([1.0 / k if k in (1, 2, 4) else 0.5, 0.5, 0.25, 2.0, 4.0, 1.0])
+        case["weights"] = [wgt] * k
+        cons = case["constraint"] if isinstance(case["constraint"][0], list) else [case["constraint"]]
+        cons = [[kind_, c_ / wgt] for kind_, c_ in cons]
+        case["constraint"] = cons if isinstance(case["constraint"][0], list) else cons[0]
     if cls == "weights_uniform":
         # a menu weight, or ANY positive weight that is exact in float64 (integers up to 1000, dyadic fractions): equal weights of whatever size must not change the result
         case["weights"] = [rng.choice(W_POOL) if rng.random() < 0.5 else rng.choice([rng.randint(1, 1000), rng.randint(1, 64) / rng.choice([2, 4, 8, 16, 64])])] * k
